@@ -46,6 +46,32 @@ prop("C19", True, "model_checking",
      "IsIPv4, IsIPv6, DecodedPort, Scheme, Query, Fragment, OpaquePath, IsSpecialScheme, Href(true) compared after every step of parse/resolve/setter/clone histories and on the host parse families.",
      TB, "DESIGN.md section 4/C19")
 
+EV = "composite events recorded from the real code for every (input, base) of TLC-enumerated families and validated by TLC (spec/Trace_Events.tla evaluates the relation on observed values)"
+prop("C06", True, "model_checking",
+     "laws are TLC invariants of the specification (MC_Parse LawSelf/LawEmpty/LawHash/LawQuery/LawScheme/LawOpaqueBase); " + EV,
+     "Design: the laws hold on every terminal state of the struct family x bases in the specification. Binding: for every enumerated (input, base) the three entry points, Href(u) against 7 bases, '', '#f', '?q' and 12 scheme-less references are executed on the real code; TLC evaluates the relations on the observed values only (model-independent).",
+     TB, "DESIGN.md section 4/C06")
+prop("C07", True, "model_checking",
+     "host sub-model spec/MC_Host.tla: one TLC state per host string; IPv4 design invariants (independent formulation of 'ends in a number'); every string replayed in http, ws, file and non-special URLs",
+     "Every host string up to length 4-5 over {0 1 7 8 9 x X a f g . - +} plus narrow-deep alphabets ({0 1 .} to 9-11, radix, range) - exhaustive within bounds; equality of failure flag, hostname, serialization, IsIPv4.",
+     TB, "DESIGN.md section 4/C07")
+prop("C08", True, "model_checking",
+     "MC_Host.tla: IPv6 text side (bodies and bracket arrangements) and value side (all 3^8 zero-run patterns x alternative spellings); serializer = independent canonical text and parse(serialize(a)) = a are TLC invariants; replay",
+     "Text side exhaustive up to the bounds; the 2^128 values are covered by zero-run patterns exhaustively (positions, lengths, ties), not by value.",
+     TB, "DESIGN.md section 4/C08")
+prop("C09", True, "model_checking",
+     "MC_Host.tla: exact prediction for pure-ASCII non-ACE hosts; TLC-generated spelling classes (case flips, whole-code-point percent-encoding) whose real hostnames must coincide",
+     "Exact part exhaustive over the ASCII alphabet up to the bound; relational part over 10-19 base hosts (ASCII, mapped, ignored, bidi, joiner, full-width, ACE) x all spellings with up to 2-3 varied code points. IDNA tables are taken as given.",
+     TB + "; golang.org/x/net/idna is not modelled.", "DESIGN.md section 4/C09")
+prop("C10", True, "model_checking",
+     "spec tables vs the standard's lists (TLC), exhaustive comparison with the real sets on all 0x110000 code points; copy-on-derive history machine; codec laws as TLC invariants + byte-exact replay (spec/MC_Codec.tla)",
+     "Set membership: exhaustive (finite table). Derivation sequences up to depth 2-3, every registry entry fingerprinted after every step. Codec laws: every string up to length 3-5 over a 10-character class alphabet x 10 named/derived sets.",
+     TB, "DESIGN.md section 4/C10")
+prop("C15", True, "model_checking",
+     "choke-point model spec/Diag.tla checked for all event sequences up to 5 (and refuted, as a non-vacuity check, when a fatal event does not stop); " + EV,
+     "For every (input, base) of the parse families the four configurations are run on the real code; TLC evaluates reporting == default, fail-on-VE subset/same URL/accepts exactly the silent inputs, documented error types, failure flags.",
+     TB + "; the table of documented error identifiers (harness/cmd/vh/errnames.go, generated from errors/codes.go).", "DESIGN.md section 4/C15")
+
 NOT_YET = "check under construction in this session (see DESIGN.md section 4 for the planned decision procedure)"
 
 def main():
